@@ -98,6 +98,9 @@ def step (_ : Unit) (j : Json) : Except String (Unit × Drv.Out) := do
       let im ← clientMsg (← fld out "msg")
       let iv ← boolF out "valid"
       o := o.tag (if iv then "valid" else "invalid")
+      match fldD out "valid_panic" with
+      | .str p => o := o.mon "admission" "valid-panic" s!"ValidClientMsg panicked ({p.take 80}) on the parsed message {text.quote}"
+      | _ => pure ()
       if iv && !ValidSpec.msgOkB im then
         o := o.mon "admission" "unsound" s!"judged valid but breaks the NIP-01 constraints: {(clientMsgJ im).compress}"
       if wf && !iv then
